@@ -31,7 +31,7 @@ def main():
             if not ok:
                 print("VIOLATION property=%s replay=%s" % (a.pid.upper(), a.replay))
             return 0 if ok else 1
-        res = runner.Result(a.pid.upper(), tier, seed)
+        res = runner.Result(a.pid.upper(), tier, seed, level=getattr(mod, "LEVEL", "model_checking"))
         mod.run(res, only=a.only)
         return res.finish()
     except SystemExit:
